@@ -40,4 +40,10 @@ def r6(run, tree):
     cf.check_group_indexing(run, tree)
 
 
-RULES = [r1_r2, r3, r4_r5, r6]
+def r_init(run, tree):
+    run.rule("C14.R7", "particle and sink readers are initialised exactly when selected and present (a group switched off after a load that had it on is not read again: no duplicated rows)",
+             "D7 history fold of reader.initialize (shared with C13/C15)", "", floor=5)
+    iof.check_reader_initialize(run, tree)
+
+
+RULES = [r_init, r1_r2, r3, r4_r5, r6]
